@@ -62,17 +62,29 @@ def key_pool(rng, ty, klass, size):
     return sorted({str(rng.randrange(lo, hi + 1)) for _ in range(size)}, key=int)
 
 
+def slice_val(rng):
+    """a []int64 value: `[]`, `[7]`, `[1,2,3]` (no blanks). Slices make the stored interface
+    values uncomparable in Go: `==` on two of them panics."""
+    return "[" + ",".join(str(rng.randrange(-5, 100)) for _ in range(rng.choice([0, 1, 1, 2, 2, 3]))) + "]"
+
+
 def rand_val(rng):
     r = rng.random()
     if r < 0.15:
         return "nil"
+    if r < 0.27:
+        return slice_val(rng)
     return str(rng.randrange(-5, 100))
 
 
 def rand_cb(rng):
+    """c<v>: constant; a<d>: add d; ap<i>: append i to the stored slice (absent or not a slice:
+    the one-element slice [i])"""
     r = rng.random()
-    if r < 0.5:
+    if r < 0.42:
         return "a%d" % rng.choice([1, 1, 1, 2, -3, 10])
+    if r < 0.58:
+        return "ap%d" % rng.randrange(0, 9)
     return "c" + rand_val(rng)
 
 
@@ -160,7 +172,8 @@ def history(rng, ty, order, profile, allow_delete=True, nops=None):
             lines.append("get %s" % k)
         elif kind == "scan":
             lim = rng.choice([-1, -1, -1, 0, 1, 2, 5])
-            lines.append("scan %s %d" % (k, lim))
+            # one scan in eight is compared as a digest (`scand`: what the long leaf chains use)
+            lines.append("%s %s %d" % ("scand" if rng.random() < 0.125 else "scan", k, lim))
         if kind in ("ins", "upd", "dele") and (i % snap_every == 0):
             lines.append("snap")
     lines.append("snap")
@@ -208,6 +221,11 @@ def large_history(rng, ty, order, n):
     elif mode == "ends":
         load = [keys[i // 2] if i % 2 == 0 else keys[n - 1 - i // 2] for i in range(n)]
     lines = ["begin", "new %s %d" % (ty, order)]
+    if n > 3000:
+        # beyond 3000 keys seqrun makes no per-op shape check anyway; the per-op lock sweep costs
+        # a snapshot of the whole tree (most of a quick check's CPU time went there): every
+        # fourth op is enough, a leaked mutex stays locked until the next sweep finds it
+        lines.append("opt sweep 4")
     for i, k in enumerate(load):
         lines.append("ins %s %d" % (k, i % 89))
     lines.append("snap")
@@ -231,3 +249,197 @@ def large_history(rng, ty, order, n):
     lines.append("snap")
     lines.append("scan %s 50" % keys[n // 2])
     return lines
+
+
+# --------------------------------------------------------------------------
+# very wide nodes (orders 2048 and up) and very long leaf chains
+#
+# Both generators take an integer seed (not an rng), so a replay file can name
+# the call that regenerates the history: see `regen`.
+
+HUGE_ORDERS_QUICK = [2048, 4096, 8192]
+HUGE_ORDERS_THOROUGH = [2048, 4096, 8192, 16384]
+INT_TYPES = ["i32", "i64", "u32", "u64"]
+PTR_TYPES = ["str", "cmp"]
+
+# Shape of a huge history as multiples of the order: keys loaded, descending inserts into the
+# left of the leftmost leaf, scrambled inserts elsewhere, length of the contiguous range
+# removed, scattered removals. The model is a list model: an operation on a node costs time
+# proportional to its width (about 0.1 ms per 1000 entries and insert), so a history costs
+# about order^2 and the widest trees are kept just large enough to split, borrow and merge.
+HUGE_SHAPES = {
+    "full": (2.5, 0.6, 0.33, 0.8, 0.25),
+    "medium": (1.3, 0.15, 0.1, 0.3, 0.08),
+    "lean": (1.04, 0.02, 0.04, 0.05, 0.02),
+}
+
+
+def huge_class(order, tier):
+    if tier == "quick":
+        return "full" if order <= 2048 else ("medium" if order <= 4096 else "lean")
+    return "full" if order <= 4096 else ("medium" if order <= 8192 else "lean")
+
+
+def huge_plan(seed, tier):
+    """(type, order) pairs of one run. Every type gets a tree of order 2048; both
+    pointer-carrying types and one integer type (rotating with the seed) one of order
+    4096; one pointer-carrying and one integer type (both rotating) the larger orders."""
+    plan = [(ty, 2048) for ty in TYPES]
+    plan += [("str", 4096), ("cmp", 4096), (INT_TYPES[seed % 4], 4096)]
+    big = [8192] if tier == "quick" else [8192, 16384]
+    for j, o in enumerate(big):
+        plan.append((PTR_TYPES[(seed + j) % 2], o))
+        plan.append((INT_TYPES[(seed + 1 + j) % 4], o))
+    return plan
+
+
+def huge_history(seed, ty, order, tier="quick"):
+    """A tree whose nodes hold more than 1024 entries and split. Bulk loads (ascending,
+    descending, scrambled; which part of the key range gets which mode is drawn from the seed)
+    fill the root leaf to exactly `order` keys; then a burst of descending keys below all of
+    them: the first one splits the root leaf and goes into the LEFT half. The rest of the
+    load; descending inserts into the left half of the leftmost leaf (in the "full" shape until
+    that leaf splits too), scrambled inserts into the middle of wide nodes; a lookup of every
+    stored key; updates (slice values too); scans from a few starts (printed and as digests);
+    removal of a contiguous range and of scattered keys; snapshots at a few points.
+    `opt sweep` thins the per-op structural sweeps out (each costs a snapshot of the tree)."""
+    import random
+    rng = random.Random("huge/%d/%s/%d/%s" % (seed, ty, order, tier))
+    shape = huge_class(order, tier)
+    f_load, f_left, f_mid, f_range, f_scat = HUGE_SHAPES[shape]
+    nburst = 48
+    m = int(order * f_load) + nburst    # base keys
+    univ = asc_keys(ty, 3 * m, rng)     # base keys are univ[1::3]; two gap keys per base key
+    base = univ[1::3]
+    lines = ["begin", "new %s %d" % (ty, order), "opt sweep 16"]
+    present = {}
+    cnt = [0]
+
+    def ins(k):
+        i = cnt[0]
+        cnt[0] += 1
+        r = rng.random()
+        v = slice_val(rng) if r < 0.04 else ("nil" if r < 0.07 else str(i % 89))
+        lines.append("ins %s %s" % (k, v))
+        present[k] = True
+
+    burst, rest = base[:nburst], base[nburst:]
+    if shape == "lean":
+        # mostly ascending (appends are the cheapest way to fill a wide node in the model)
+        cut = len(rest) // 25
+        phases = [("asc", rest[cut:]), (rng.choice(["desc", "shuf"]), rest[:cut])]
+    else:
+        a, b = len(rest) // 3, 2 * len(rest) // 3
+        parts = [rest[:a], rest[a:b], rest[b:]]
+        modes = ["asc", "desc", "shuf"]
+        rng.shuffle(parts)
+        rng.shuffle(modes)
+        phases = list(zip(modes, parts))
+    load = []
+    for mode, part in phases:
+        part = list(part)
+        if mode == "desc":
+            part.reverse()
+        elif mode == "shuf":
+            rng.shuffle(part)
+        load += part
+    for k in load[:order]:
+        ins(k)
+    for k in reversed(burst):
+        ins(k)
+    for k in load[order:]:
+        ins(k)
+    lines.append("snap")
+    # left: gap keys of rank < order/2 in the leftmost leaf, descending: each lands in the left
+    # half of that leaf (which splits after at most order/2+1 of them)
+    ucut = int(1.5 * f_left * order)
+    for u in range(ucut - 1, -1, -1):
+        if u % 3 != 1:
+            ins(univ[u])
+    # middle: scrambled gap keys anywhere (positions beyond 1023 of wide nodes)
+    gaps = [univ[u] for u in range(ucut, 3 * m) if u % 3 != 1]
+    for k in rng.sample(gaps, min(len(gaps), int(f_mid * order))):
+        ins(k)
+    lines.append("snap")
+    for k in univ:
+        if k in present:
+            lines.append("get %s" % k)
+    for k in rng.sample([k for k in gaps if k not in present], 40):
+        lines.append("get %s" % k)
+    cbs = ["a1", "a-3", "ap%d" % rng.randrange(9), "ap%d" % rng.randrange(9), "c" + slice_val(rng), "c7", "cnil"]
+    for k in rng.sample(univ, max(60, order // 32)):
+        lines.append("upd %s %s" % (k, rng.choice(cbs)))
+        present[k] = True
+    stored = [k for k in univ if k in present]
+    lines.append("scan %s -1" % univ[0])
+    for _ in range(2):
+        lines.append("scand %s %d" % (rng.choice(univ), rng.choice([-1, -1, order, 7])))
+    lines.append("scan %s 50" % rng.choice(stored))
+    # removal: a contiguous range (borrows and merges between wide nodes), then scattered keys
+    n = len(stored)
+    ln = min(n // 2, int(order * f_range))
+    s0 = rng.randrange(0, n - ln)
+    dels = stored[s0: s0 + ln]
+    if rng.random() < 0.5:
+        dels.reverse()
+    keep = stored[:s0] + stored[s0 + ln:]
+    scattered = rng.sample(keep, min(len(keep) // 3, int(order * f_scat)))
+    for k in dels + scattered:
+        lines.append("del %s" % k)
+        present.pop(k, None)
+    lines.append("snap")
+    stored = [k for k in univ if k in present]
+    for k in (stored if shape != "lean" else rng.sample(stored, len(stored) // 8)):
+        lines.append("get %s" % k)
+    for k in rng.sample(dels + scattered, 60):
+        lines.append("get %s" % k)
+    for k in rng.sample(dels, 30):
+        lines.append("upd %s ap%d" % (k, rng.randrange(9)))
+    lines.append("scan %s -1" % univ[0])
+    lines.append("scand %s -1" % rng.choice(univ))
+    lines.append("locks")
+    lines.append("snap")
+    return lines
+
+
+CHAIN_TYPES = ["i32", "i64", "u32", "u64", "str"]
+
+
+def chain_history(seed, ty, nkeys=300000, order=4):
+    """A leaf chain of about nkeys/2 leaves: one `bulk` line loads nkeys ascending keys into a
+    tree of order 4; a scan over the whole chain and some shorter ones are compared as digests;
+    after the cursors are closed every mutex must be free (`locks`) and operations on the last
+    keys of the chain (and on the first) must return."""
+    import random
+    rng = random.Random("chain/%d/%s/%d/%d" % (seed, ty, nkeys, order))
+    lo = {"i64": -1000, "i32": -1000}.get(ty, 0)
+    step = 1 if ty == "str" else rng.choice([1, 1, 2, 3])
+    if ty == "str":
+        lo = 0
+    n = nkeys + rng.randrange(0, 5000)
+
+    def key(j):
+        if ty == "str":
+            return "%d.%d.%d" % (j // 40000 + 33, (j // 200) % 200 + 33, j % 200 + 33)
+        return str(j)
+    first, last = lo, lo + (n - 1) * step
+    lines = ["begin", "new %s %d" % (ty, order), "opt sweep 0", "bulk %d %d %d" % (lo, n, step),
+             "scand %s -1" % key(first)]
+    tail = [last - i * step for i in range(6)]
+    lines += ["get %s" % key(tail[0]), "upd %s a1" % key(tail[1]), "upd %s ap2" % key(tail[0]),
+              "ins %s 5" % key(last + step), "del %s" % key(tail[2]), "get %s" % key(tail[2]),
+              "get %s" % key(first), "del %s" % key(first), "upd %s c[4]" % key(tail[3])]
+    mid = lo + (n // 2) * step
+    lines += ["scand %s -1" % key(mid + (1 if step > 1 else 0)), "scand %s 100000" % key(first + step),
+              "scan %s -1" % key(tail[4]),
+              "get %s" % key(last + step), "del %s" % key(last + step), "get %s" % key(tail[1]), "locks"]
+    return lines
+
+
+def regen(spec):
+    """spec: the `generator` entry of a replay file -> the full history it came from"""
+    if spec["fn"] == "huge_history":
+        return huge_history(spec["seed"], spec["type"], spec["order"], spec.get("tier", "quick"))
+    if spec["fn"] == "chain_history":
+        return chain_history(spec["seed"], spec["type"], spec.get("nkeys", 300000), spec.get("order", 4))
+    raise ValueError("unknown generator " + str(spec.get("fn")))
